@@ -81,18 +81,6 @@ def runToRet (c : Cfg) (l2 : Bool) (fuel : Nat) (s : State) (t : Nat) : Except S
       if l2 && !isEvent (some l) then runToRet c l2 fuel s' t
       else .error s!"implementation returned but the model's next action is {reprStr l}"
 
-/-- quiescent shape of the queue (C01 `bq_inv` at quiescence), checked at every quiescent point -/
-def qshapeB (c : Cfg) (s : State) : Bool :=
-  decide (s.popIdx ≤ s.pushIdx) && decide (s.pushIdx ≤ s.popIdx + c.cap) && s.slots.length == c.cap &&
-  (List.range c.cap).all (fun d =>
-    let i := s.popIdx + d
-    match s.slots[i % c.cap]? with
-    | none => false
-    | some sl =>
-      sl.owner == none &&
-      (if i < s.pushIdx then sl.ver == expVer c.cap i .pop && sl.val.isSome
-       else sl.ver == expVer c.cap i .push && sl.val == none))
-
 def doCall (r : RState) (t : Nat) (op : Op) : Except String RState :=
   match callOp r.c r.s t op with
   | some s' => .ok { r with s := s' }
